@@ -171,7 +171,6 @@ VGMFileDumper::VGMFileDumper(OPNFamily f, int index, void *first)
     if(m_chip_index == 0)
     {
         m_output = std::fopen(g_vgm_path, "wb");
-        assert(m_output);
         std::memcpy(m_vgm_head.magic, "Vgm ", 4);
         m_vgm_head.version = 0x00000150;
         m_vgm_head.offset_loop = VGM_LOOP_START_BASE;
